@@ -141,7 +141,7 @@ fn deviations(req: &Req, thorough: bool) -> Vec<(String, Value)> {
                 for v1 in &small {
                     for v2 in &small {
                         let p = set(&set(&req.params, k1, Some(v1.clone())), k2, Some(v2.clone()));
-                        out.push((format!("{}={} & {}={}", k1, trunc(&v1.to_string(), 12), k2, trunc(&v2.to_string(), 12)), p));
+                        out.push((format!("{}={} & {}={}", k1, trunc(&v1.to_string(), 24), k2, trunc(&v2.to_string(), 24)), p));
                     }
                 }
             }
@@ -248,6 +248,28 @@ fn cases(tier: &str, seed: u64) -> Vec<Case> {
         if thorough || st.len() < 2 || st[0] % 8 == 0 {
             for p in [0xfau8, 0xfb, 0xfc, 0xfd, 0xfe] {
                 v.push(Case::Sim { req: eth_call_req(&from, Some(&pre_addr(p)), st), what: format!("precompile 0x{:02x} input {}", p, hx(st)) });
+            }
+        }
+    }
+    // ---- call shapes: every simulating method x sender kind x target kind x call-data size (a sender
+    // with code, or call data whose intrinsic cost exceeds a bisection probe, is refused by the EVM
+    // before execution: the error arms of the single- and multi-call paths) ----
+    {
+        let eoa = addr_s(pk_addr(5));
+        let senders: Vec<(&str, String)> = vec![("an EOA", from.clone()), ("a contract (S)", s.clone()), ("the zero address", format!("0x{}", "00".repeat(20))), ("a precompile address", pre_addr(0xfb)), ("the indexer address", "0x0000000000000000000000000000000000003ca6".into())];
+        let targets: Vec<(&str, Value)> = vec![("S", json!(s)), ("a creation", Value::Null), ("an account without code", json!(eoa)), ("precompile 0xfb", json!(pre_addr(0xfb)))];
+        let mut set_call = vec![1u8, 0, 5, 0, 0, 0, 0, 0];
+        set_call.truncate(8);
+        let datas: Vec<(&str, Vec<u8>)> = vec![("empty", vec![]), ("S.set", set_call), ("300 non-zero bytes", vec![0x11; 300]), ("40000 non-zero bytes", vec![0x11; 40_000])];
+        for (sn, sender) in &senders {
+            for (tn, target) in &targets {
+                for (dn, data) in &datas {
+                    let call = json!({"from": sender, "to": target, "data": hx(data)});
+                    for m in ["eth_call", "eth_estimateGas", "eth_callMany", "eth_estimateGasMany"] {
+                        let params = if m.ends_with("Many") { json!([[call.clone(), {"from": from, "to": s, "data": "0x0600"}], null, null]) } else { json!([call.clone(), null]) };
+                        v.push(Case::Sim { req: Req { method: m.into(), label: String::new(), params }, what: format!("{} from {} to {} with {} call data", m, sn, tn, dn) });
+                    }
+                }
             }
         }
     }
@@ -399,6 +421,15 @@ pub fn worker_main(tier: &str, shard: u64, nshards: u64, seed: u64, args: &[Stri
             st.ok += 1;
         } else {
             st.errors += 1;
+        }
+        // a simulation that leaves the engine emptied or poisoned shows in the very next query
+        if matches!(case, Case::Sim { .. }) && !r.is_panic() {
+            let probe = inst.call("eth_blockNumber", json!([]));
+            if !probe.is_ok() {
+                st.wedges.push((id, what.clone(), format!("after {} {}: eth_blockNumber answers {}", req.method, trunc(&req.params.to_string(), 400), trunc(&canon(&probe.to_value()), 300))));
+                inst.recreate();
+                sim_ready = false;
+            }
         }
         // the server keeps serving: checked after every state-building case and after any panic
         if matches!(case, Case::Request { .. }) || r.is_panic() || st.cases % 512 == 0 {
